@@ -453,8 +453,7 @@ package scheduler
 //@        (node.data.State.Status == NodeStatusNone || (node.data.State.Status == NodeStatusError && sc.lastError != nil))
 //@   ensures [C02 failed_step_labelled_failed] old(w_scope(sc, node)) && old(node.data.State.Status) == NodeStatusRunning &&
 //@        nexec[node] == old(nexec[node]) + 1 && execfail[node] ==>
-//@        (node.data.State.Status == NodeStatusError || node.data.State.Status == NodeStatusNone || node.data.State.Status == NodeStatusCancel ||
-//@         (sc.canceled == 1 && sc.lastError != nil))
+//@        (node.data.State.Status == NodeStatusError || node.data.State.Status == NodeStatusNone || node.data.State.Status == NodeStatusCancel)
 //@   ensures [C02 failed_step_sets_run_error] old(w_scope(sc, node)) && old(node.data.State.Status) == NodeStatusRunning &&
 //@        node.data.State.Status == NodeStatusError ==> sc.lastError != nil
 //@   ensures [C02 clean_step_labelled_finished] old(w_scope(sc, node)) && old(node.data.State.Status) == NodeStatusRunning &&
@@ -463,6 +462,7 @@ package scheduler
 //@   ensures [C02 setup_failure_labelled_failed] old(w_scope(sc, node)) && nexec == old(nexec) && old(node.data.State.Status) == NodeStatusRunning && sc.canceled != 1 ==>
 //@        (node.data.State.Status == NodeStatusError && sc.lastError != nil)
 //@   ensures [C12 torn_down_after_last_execution] old(!sc.dry) ==> !dirty[node]
+//@   ensures [C05,C08 worker_never_leaves_its_step_running] old(!sc.dry) ==> node.data.State.Status != NodeStatusRunning
 //@   loop 0 invariant sc == old(sc) && node == old(node) && sc.dry == old(sc.dry) && sc.timeout == old(sc.timeout) && (old(sc.canceled) == 1 ==> sc.canceled == 1)
 //@   loop 0 invariant old(!sc.dry) ==> nsetup == upd(old(nsetup), node, old(nsetup[node]) + 1)
 //@   loop 0 invariant [stopped_before_start] old(sc.canceled) == 1 ==> (sc.canceled == 1 && nexec == old(nexec) && eff.exec == old(eff.exec))
